@@ -152,8 +152,10 @@ func (c *TCPConn) receiveRawProd() ([]byte, error) {
 		return nil, xerrors.Errorf("buffer read: %w", handleError(err))
 	}
 	if total > MaxPacketSize {
-		return nil, xerrors.Errorf("%v sends too big packet: %v>%v",
-			c.conn.RemoteAddr().String(), total, MaxPacketSize)
+		// The body of the refused packet is still in flight: the stream cannot
+		// be used any further, so the error must end the connection.
+		return nil, xerrors.Errorf("%v sends too big packet: %v>%v: %w",
+			c.conn.RemoteAddr().String(), total, MaxPacketSize, ErrUnknown)
 	}
 
 	b := make([]byte, total)
